@@ -15,24 +15,47 @@ func monitor(rep *emit.Report, c *caseRun) {
 	per := time.Duration(w.Period) * time.Second
 	lastRound := int64(0)
 	// valid contributors seen so far per (round, prev id): independent count for C03
-	contrib := map[[2]int64]map[int]bool{}
+	// (the first accepted partial of an index for a (round, prev) occupies that index's slot, as in the
+	// node's cache; whether it counts is decided under the polynomial that is live when the count is made)
+	contrib := map[[2]int64]map[int][]byte{}
+	prevOf := map[int64][]byte{}
 	thr := w.Epochs[0].Thr
 	epoch := 0
 	pendingTarget := int64(-1)
 	transitionTarget := int64(-1)
 	nEp := 1 // epochs that exist at the current step
 	expectPut := int64(-1)
-	addContrib := func(headBefore uint64, round int64, prev int64, idx int) {
+	// C05 catch-up: a beacon appended by the aggregator while the node is behind the round of its
+	// last tick makes the node sign the next round after the catch-up period, without waiting for
+	// the next tick
+	type catchExp struct {
+		round uint64
+		due   int64
+		step  int
+	}
+	var pendingCatch []catchExp
+	lastTick := uint64(0)         // round of the last tick the running handler has seen (0: none yet)
+	emitted := map[uint64]int64{} // round -> latest clock at which the node released a partial for it
+	addContrib := func(headBefore uint64, round int64, prev int64, idx int, sig, prevBytes []byte) {
 		// only rounds in the aggregator's window are cached
 		if round <= int64(headBefore) || round > int64(headBefore)+4 {
 			return
 		}
 		k := [2]int64{round, prev}
 		if contrib[k] == nil {
-			contrib[k] = map[int]bool{}
+			contrib[k] = map[int][]byte{}
 		}
-		contrib[k][idx] = true
-		if len(contrib[k]) >= thr {
+		if _, taken := contrib[k][idx]; !taken {
+			contrib[k][idx] = sig
+		}
+		prevOf[prev] = prevBytes
+		valid := 0
+		for _, sg := range contrib[k] {
+			if w.Sch.ThresholdScheme.VerifyPartial(w.Epochs[epoch].PubPoly, w.Digest(uint64(round), prevBytes), sg) == nil {
+				valid++
+			}
+		}
+		if valid >= thr {
 			// the aggregator recovers, flushes every cached round up to this one, and appends the
 			// beacon if it is the successor of the head (built on the head's signature)
 			if round == int64(headBefore)+1 && prev == int64(headBefore) {
@@ -54,7 +77,8 @@ func monitor(rep *emit.Report, c *caseRun) {
 			nEp++
 		}
 		if s.ev.Kind == "stop" || s.ev.Kind == "restart" {
-			contrib = map[[2]int64]map[int]bool{} // the partial cache does not survive a restart
+			pendingCatch, lastTick = nil, 0       // sleepers die with the handler; the new one has seen no tick
+			contrib = map[[2]int64]map[int][]byte{} // the partial cache does not survive a restart
 			if s.ev.Kind == "restart" {
 				// the restarted process loads the latest group
 				epoch = nEp - 1
@@ -62,6 +86,39 @@ func monitor(rep *emit.Report, c *caseRun) {
 				pendingTarget = -1
 			}
 		}
+		if s.ev.Kind == "adv" && c.r != nil {
+			// a tick happened if the advance reached a round boundary while the handler was ticking
+			old, nw := s.obs.Now-s.ev.D, s.obs.Now
+			if nw >= w.Genesis && s.tickingAfter {
+				k := (nw - w.Genesis) / w.Period
+				if tt := w.Genesis + k*w.Period; tt > old {
+					lastTick = uint64(k + 1)
+				}
+			}
+		}
+		for _, e := range s.obs.Emits {
+			if e.Clock > emitted[e.Round] {
+				emitted[e.Round] = e.Clock
+			}
+		}
+		if s.ev.Kind == "part" && !s.syncOnAfter {
+			for _, p := range s.obs.Puts {
+				if p.Round < lastTick {
+					pendingCatch = append(pendingCatch, catchExp{round: p.Round + 1, due: s.obs.Now + w.Catchup, step: i})
+				}
+			}
+		}
+		var still []catchExp
+		for _, ce := range pendingCatch {
+			if s.obs.Now < ce.due {
+				still = append(still, ce)
+				continue
+			}
+			if at, ok := emitted[ce.round]; !ok || at < c.steps[ce.step].obs.Now {
+				rep.Fail("C05-no-catchup-partial-after-late-round", fmt.Sprintf("round %d was appended at step %d while the node was behind its last tick (%d), but no partial for round %d was released within the catch-up period", ce.round-1, ce.step, lastTick, ce.round), in)
+			}
+		}
+		pendingCatch = still
 		// C04: no emission for a round before its time on the node's own clock
 		for _, e := range s.obs.Emits {
 			if common.TimeOfRound(per, w.Genesis, e.Round) > e.Clock {
@@ -71,7 +128,7 @@ func monitor(rep *emit.Report, c *caseRun) {
 				rep.Fail("C04-emission-invalid", "emitted partial does not verify under the node's own share", in)
 			}
 			if e.Valid {
-				addContrib(s.obs.HeadBefore, int64(e.Round), e.Prev, w.Me)
+				addContrib(s.obs.HeadBefore, int64(e.Round), e.Prev, w.Me, c.t.bytes[e.SigID], c.t.bytes[e.Prev])
 			}
 		}
 		// C07 / C03: once the last pre-transition round is stored only shares of the new group count:
@@ -106,7 +163,7 @@ func monitor(rep *emit.Report, c *caseRun) {
 				}
 			}
 			if !s.obs.Rejected && s.obs.Valid && w.Epochs[epoch].IsMember(s.ev.Claim) && s.ev.Claim != w.Me {
-				addContrib(s.obs.HeadBefore, int64(s.ev.Round), c.t.id(s.obs.PrevBytes), s.ev.Claim)
+				addContrib(s.obs.HeadBefore, int64(s.ev.Round), c.t.id(s.obs.PrevBytes), s.ev.Claim, s.obs.SigBytes, s.obs.PrevBytes)
 			}
 		}
 		for _, p := range s.obs.Puts {
@@ -121,16 +178,28 @@ func monitor(rep *emit.Report, c *caseRun) {
 			if int64(p.Round) > lastRound {
 				lastRound = int64(p.Round)
 			}
+			for kk := range contrib { // every stored round flushes the cache up to it
+				if kk[0] <= int64(p.Round) {
+					delete(contrib, kk)
+				}
+			}
 			if pendingTarget >= 0 && int64(p.Round) >= pendingTarget {
 				epoch = nEp - 1
 				thr = w.Epochs[epoch].Thr
 				pendingTarget = -1
-				contrib = map[[2]int64]map[int]bool{} // partials verified under the old polynomial no longer count
+				// (cached partials verified under the old polynomial stay in their slots but no longer count)
 			}
 		}
 		// C05: once valid partials of a threshold of distinct live members (the node's own included)
 		// for the round after its head, on top of its head, have reached the node, it has stored that round
 		if expectPut >= 0 && int64(s.obs.Head) < expectPut && s.ev.Kind != "stop" {
+			var tail []string
+			for k := i - 16; k <= i; k++ {
+				if k >= 0 {
+					tail = append(tail, fmt.Sprintf("%d %s from=%d claim=%d r=%d ep=%d mut=%s prev=%s d=%d rej=%v valid=%v puts=%d emits=%d head=%d now=%d", k, c.steps[k].ev.Kind, c.steps[k].ev.From, c.steps[k].ev.Claim, c.steps[k].ev.Round, c.steps[k].ev.Ep, c.steps[k].ev.Mut, c.steps[k].ev.Prev, c.steps[k].ev.D, c.steps[k].obs.Rejected, c.steps[k].obs.Valid, len(c.steps[k].obs.Puts), len(c.steps[k].obs.Emits), c.steps[k].obs.Head, c.steps[k].obs.Now))
+				}
+			}
+			in["last_steps"] = tail
 			rep.Fail("C05-threshold-of-partials-but-no-beacon", fmt.Sprintf("valid partials of a threshold (%d) of distinct live members for round %d on top of the head reached the node but the round was not stored", thr, expectPut), in)
 			if epoch > 0 {
 				rep.Fail("C07-new-group-threshold-but-round-halted", fmt.Sprintf("after the transition, valid partials of a threshold (%d) of the NEW group for round %d reached the node but the round was not produced", thr, expectPut), in)
